@@ -293,3 +293,86 @@ Theorem C06_history_base_path_memo_sentinel_refuted :
   /\ expected_path (final_cfg (cfg0 TWsgi) h) s_items = s_v2 ++ s_items.
 Proof. exact base_path_memo_sentinel_refuted. Qed.
 Print Assumptions C06_history_base_path_memo_sentinel_refuted.
+
+(* ---- exchanges: RESPONSE-side state carried from one exchange to the next (Model_C06 section 14).
+   An exchange = a request that reaches the application (a case sent through the requests / WSGI / ASGI transport, with or
+   without a session object of the user, or the loading of the schema) and the answer of the application (Set-Cookie,
+   redirect, Connection: close).  fresh_clients = the code; any other client rule is hypothetical. *)
+
+(* non-interference, for EVERY client rule: the request of an exchange is decided by the exchanges that went through the
+   same long-lived client object; every other exchange of the history, and whatever was answered to it, can be deleted *)
+Theorem C06_exchange_depends_on_its_own_client_object_only : forall rule e js h ev,
+  snd (xstep rule e (xexec rule e js h) ev) = snd (xstep rule e (xexec rule e js (filter (same_slot rule ev) h)) ev).
+Proof. exact exchange_noninterference. Qed.
+Print Assumptions C06_exchange_depends_on_its_own_client_object_only.
+
+(* the code: an exchange without a session object of the user (loads included; on the ASGI transport every exchange)
+   delivers the request of that exchange ALONE, after every history, whatever the applications answered before and
+   whatever the session objects of the user hold *)
+Theorem C06_exchange_without_session_is_the_case_alone : forall e js h ev,
+  no_session ev = true \/ xtransport ev = TAsgi ->
+  snd (xstep fresh_clients e (xexec fresh_clients e js h) ev) = xalone e ev.
+Proof. exact exchange_alone. Qed.
+Print Assumptions C06_exchange_without_session_is_the_case_alone.
+
+Theorem C06_exchange_history_without_sessions_is_pointwise : forall e h js,
+  forallb no_session h = true -> xrun fresh_clients e js h = map (xalone e) h.
+Proof. exact exchange_run_alone. Qed.
+Print Assumptions C06_exchange_history_without_sessions_is_pointwise.
+
+(* independence, as the property reads: two histories, two sets of answers - the same exchange afterwards delivers the same request *)
+Theorem C06_exchange_independent_of_earlier_exchanges : forall e js1 js2 h1 h2 ev,
+  no_session ev = true \/ xtransport ev = TAsgi ->
+  snd (xstep fresh_clients e (xexec fresh_clients e js1 h1) ev) = snd (xstep fresh_clients e (xexec fresh_clients e js2 h2) ev).
+Proof. exact exchange_independent. Qed.
+Print Assumptions C06_exchange_independent_of_earlier_exchanges.
+
+(* what that request carries, all three transports, after ANY history: the Cookie header is made of exactly the cookies
+   of the case and of the call; every header is Host, a default header of the client (requests / ASGI), an entry of
+   prepare_headers (case, call, User-Agent, test-case id: C06_headers_only_expected) or that Cookie header.
+   Region: the case has no Cookie header of its own; its cookies are a dict (every name once) *)
+Theorem C06_exchange_carries_the_case_partial : forall e js h t c r,
+  no_cookie_header e c = true -> std_has_no_cookie e = true -> dict_ok (xc_cookies c) = true ->
+  let got := snd (xstep fresh_clients e (xexec fresh_clients e js h) (XSend t None c r)) in
+  ci_get s_cookie got = cookie_header_of (xown c)
+  /\ forall x, In x got ->
+       x = (s_host, xe_host e t false) \/ (t <> TWsgi /\ In x (xe_std e)) \/ In x (xprep e c) \/ x = (s_cookie, render_cookies (xown c)).
+Proof. exact exchange_carries_the_case. Qed.
+Print Assumptions C06_exchange_carries_the_case_partial.
+
+(* finding C06-F13 (outside the region): a Cookie header of the case is not delivered by the WSGI transport; with the
+   requests and ASGI transports it is delivered and the cookies of the case are not *)
+Theorem C06_exchange_cookie_header_refuted :
+  let c1 := xcase_cookie (Some [(s_cookie, x_h1)]) None in
+  let c2 := xcase_cookie (Some [(s_cookie, x_h1)]) (Some [(x_token, x_t)]) in
+  no_cookie_header xenv0 c1 = false /\ ci_get s_cookie (xprep xenv0 c1) = Some x_h1
+  /\ ci_get s_cookie (xalone xenv0 (XSend TWsgi None c1 xquiet)) = None
+  /\ cookie_header_of (xown c2) = Some x_token_t
+  /\ ci_get s_cookie (xalone xenv0 (XSend TRequests None c2 xquiet)) = Some x_h1
+  /\ ci_get s_cookie (xalone xenv0 (XSend TAsgi None c2 xquiet)) = Some x_h1
+  /\ ci_get s_cookie (xalone xenv0 (XSend TWsgi None c2 xquiet)) = Some x_token_t.
+Proof. exact cookie_header_refuted. Qed.
+Print Assumptions C06_exchange_cookie_header_refuted.
+
+(* every client rule, sessions of the user included, histories from clients that have seen nothing: a cookie that an
+   exchange sends is a cookie of its own case, or was put into the client object by an EARLIER exchange through that same
+   object - a Set-Cookie of its answer or (werkzeug) a cookie of its case *)
+Theorem C06_exchange_cookie_provenance : forall rule e h ev p,
+  In p (xcookies_sent rule ev (xexec rule e [] h)) ->
+  In p (xown_of ev) \/ exists ev', In ev' h /\ same_slot rule ev ev' = true /\ (In p (xr_set (xresp_of ev')) \/ In p (xown_of ev')).
+Proof. exact exchange_cookie_provenance. Qed.
+Print Assumptions C06_exchange_cookie_provenance.
+
+(* sentinel for the seeded regression C06_d: with one werkzeug client per application the cookie set by an earlier answer
+   (to a send or to the schema load) is sent with a case that has none; under the rule of the code it is not *)
+Theorem C06_exchange_shared_client_sentinel_refuted :
+  let send1 := XSend TWsgi None xcase0 xsets in
+  let send2 := XSend TWsgi None xcase0 xquiet in
+  map (ci_get s_cookie) (xrun shared_wsgi_client xenv0 [] [send1; send2]) = [None; Some x_sess_S1]
+  /\ map (ci_get s_cookie) (xrun shared_wsgi_client xenv0 [] [XLoad TWsgi xsets; send2]) = [None; Some x_sess_S1]
+  /\ xrun shared_wsgi_client xenv0 [] [send1; send2] <> map (xalone xenv0) [send1; send2]
+  /\ xrun fresh_clients xenv0 [] [send1; send2] = map (xalone xenv0) [send1; send2]
+  /\ map (ci_get s_cookie) (xrun fresh_clients xenv0 [] [XLoad TWsgi xsets; send2]) = [None; None]
+  /\ no_cookie_header xenv0 xcase0 = true /\ cookie_header_of (xown xcase0) = None.
+Proof. exact shared_client_sentinel_refuted. Qed.
+Print Assumptions C06_exchange_shared_client_sentinel_refuted.
